@@ -72,7 +72,17 @@ def classify(f, dst, src_=None):
                 if c.k == "bin" and c.op in (">", "<"):
                     # (x > b[F]) ? x : b[F]
                     keep_self = estr(e.a[1].a[2]) == "%s[%s]" % (dst, estr(e.a[0].a[1])) or field_of(e.a[1].a[2], dst) == F
-                    kind = "max" if ((c.op == ">" and field_of(c.a[1], dst) == F) or (c.op == "<" and field_of(c.a[0], dst) == F)) else "min"
+                    # (x > b[F]) ? x : b[F]  is max,  (x < b[F]) ? x : b[F]  is min (and the mirrored spellings); the field compared
+                    # must be the field updated and the value taken must be the value compared
+                    if (c.op == ">" and field_of(c.a[1], dst) == F) or (c.op == "<" and field_of(c.a[0], dst) == F):
+                        kind = "max"
+                    elif (c.op == "<" and field_of(c.a[1], dst) == F) or (c.op == ">" and field_of(c.a[0], dst) == F):
+                        kind = "min"
+                    else:
+                        kind = "?"
+                    other = c.a[0] if field_of(c.a[1], dst) == F else c.a[1]
+                    if estr(e.a[1].a[1]) != estr(other):
+                        kind = "?"
                     out[F] = (kind if keep_self else "?", estr(e.a[1]))
         if st.k == "if" and st.cond.k == "bin" and st.cond.op in (">", "<") and st.els is None:
             # if (x > b[F]) b[F] = x;   is the statement form of  b[F] = (x > b[F]) ? x : b[F]   (same for <, and mirrored)
